@@ -108,7 +108,7 @@ func checkC20(c *Case, s *Stats) error {
 	if err != nil {
 		return err
 	}
-	o := obsOpt{scans: scansOK(c), stat: true, str: small, marshal: true}
+	o := obsOpt{typed: typedEnc(c), scans: scansOK(c), stat: true, str: small, marshal: true}
 	var pristine, loaded *trie.SlimTrie
 	buf := append([]byte{}, stream...)
 	err = guard("Unmarshal", func() error {
